@@ -153,7 +153,7 @@ pub fn is_start_expression_exclude_unary(tp: &Lex) -> bool {
 
 pub fn is_start_expression(tp: &Lex) -> bool {
     let start_expr = is_start_expression_exclude_unary(tp);
-    start_expr || tp.token == Token::Add || tp.token == Token::Sub
+    start_expr || matches!(tp.token, Token::Add | Token::Sub | Token::Sqrt | Token::BOneCmpl)
 }
 
 #[cfg(test)]
